@@ -434,6 +434,22 @@ Fixpoint bo_select (e : excl) (considered : excl) (cands : list C) (opt : C -> C
         else Some o
   end.
 
+(* BayesianOptimizationAlgorithm.next_candidates with greedy_batch_selection (get_batch_configs):
+   one candidate per outer iteration; a picked candidate is added to exclusion_candidates (and
+   appended as pending to the temporary state, after which the model is refitted: a NEW ranking
+   and local optimiser per iteration, here one oracle pair per iteration); the loop stops when
+   the space is exhausted w.r.t. the growing exclusion list or no candidate could be picked *)
+Fixpoint bo_batch (size : option nat) (n : nat) (e : excl) (oracles : list (list C * (C -> C))) : list C :=
+  match n, oracles with
+  | S n', (cands, opt) :: rest =>
+      if excl_exhausted size e then []
+      else match bo_select e [] cands opt with
+           | None => []
+           | Some c => c :: bo_batch size n' (excl_add e c) rest
+           end
+  | _, _ => []
+  end.
+
 (* ---------------------------------------------------------------------- *)
 (* ModelBasedSearcher (GPFIFOSearcher): TuningJobState bookkeeping + get_config *)
 Record tj_state := {
